@@ -57,6 +57,7 @@ type sel struct {
 }
 
 type lvalue struct {
+	baseVal ssa.Value // SSA value the base term comes from, when known
 	base  string
 	root  types.Type // type of the object at base (element type when elems)
 	elems bool       // object at base is a backing array of `root` elements
@@ -71,6 +72,12 @@ type loopInfo struct {
 	body     map[*ssa.BasicBlock]bool
 	havoc    map[string]bool
 	headerSt *State
+}
+
+// writeInfo summarises the writes a loop body performs to one Ref-indexed state key.
+type writeInfo struct {
+	unknown bool            // some write has a base that is not loop-invariant (or comes from a callee's frame)
+	bases   map[ssa.Value]bool // bases of writes whose base is defined outside the loop
 }
 
 type deferRec struct {
@@ -117,6 +124,7 @@ type Enc struct {
 	order   []*ssa.BasicBlock
 	defers  []deferRec
 	havocSets map[int]map[string]bool // by loop ordinal, persisted across passes
+	loopWrites map[int]map[string]*writeInfo // by loop ordinal and key, persisted across passes
 	changed bool
 
 	n         int
@@ -145,6 +153,7 @@ func NewEnc(w *World, fn *ssa.Function, fc *FuncContract) *Enc {
 	}
 	e := &Enc{w: w, fn: fn, key: fnKey(fn), fc: fc, mode: mode}
 	e.havocSets = map[int]map[string]bool{}
+	e.loopWrites = map[int]map[string]*writeInfo{}
 	e.keySort = map[string]string{}
 	return e
 }
@@ -840,7 +849,31 @@ func (e *Enc) enterLoop(h *ssa.BasicBlock, li *loopInfo, fpreds []*ssa.BasicBloc
 	sort.Strings(hk)
 	for _, k := range hk {
 		if _, ok := e.keySort[k]; ok {
-			e.havocKey(st, k)
+			old := e.get(st, k, e.keySort[k])
+			n := e.havocKey(st, k)
+			if k == allocKey {
+				// allocation only grows across iterations
+				e.assume(fmt.Sprintf("(forall ((r Ref)) (! (=> (select %s r) (select %s r)) :pattern ((select %s r))))", old, n, old))
+				e.assume(fmt.Sprintf("(select %s null)", n))
+			}
+			// objects that exist before the loop and are not written by it keep their contents
+			if wi := e.loopWrites[li.ordinal][k]; wi != nil && !wi.unknown && strings.HasPrefix(e.keySort[k], "(Array Ref ") && (e.isHeapKey(k) || strings.HasPrefix(k, "F:")) {
+				var conds []string
+				conds = append(conds, fmt.Sprintf("(select %s r)", e.allocArr(merged)))
+				var bs []string
+				for b := range wi.bases {
+					t := e.term(b)
+					if _, isSl := b.(*ssa.MakeSlice); isSl {
+						t = fmt.Sprintf("(sl.arr %s)", t)
+					}
+					bs = append(bs, t)
+				}
+				sort.Strings(bs)
+				for _, b := range bs {
+					conds = append(conds, fmt.Sprintf("(not (= r %s))", b))
+				}
+				e.assume(fmt.Sprintf("(forall ((r Ref)) (! (=> (and %s) (= (select %s r) (select %s r))) :pattern ((select %s r))))", strings.Join(conds, " "), n, old, n))
+			}
 		}
 	}
 	for _, ins := range h.Instrs {
@@ -1022,3 +1055,75 @@ func (e *Enc) constTerm(c *ssa.Const) string {
 }
 
 func (e *Enc) guardAt() string { return e.reach[e.curBlock] }
+
+// recordWrite notes, for every loop around the current block, a write to key through lvalue l.
+func (e *Enc) recordWrite(key string, l *lvalue) {
+	for _, li := range e.loopList {
+		if !li.body[e.curBlock] {
+			continue
+		}
+		m := e.loopWrites[li.ordinal]
+		if m == nil {
+			m = map[string]*writeInfo{}
+			e.loopWrites[li.ordinal] = m
+		}
+		wi := m[key]
+		if wi == nil {
+			wi = &writeInfo{bases: map[ssa.Value]bool{}}
+			m[key] = wi
+		}
+		if l == nil || l.baseVal == nil {
+			if !wi.unknown {
+				wi.unknown = true
+				e.changed = true
+			}
+			continue
+		}
+		switch v := l.baseVal.(type) {
+		case *ssa.Parameter, *ssa.FreeVar, *ssa.Global:
+			if !wi.bases[l.baseVal] {
+				wi.bases[l.baseVal] = true
+				e.changed = true
+			}
+		case ssa.Instruction:
+			if li.body[v.Block()] {
+				// defined inside the loop: a fresh allocation is not an object that existed at loop entry;
+				// anything else may denote a different pre-existing object in every iteration
+				switch v.(type) {
+				case *ssa.Alloc, *ssa.MakeSlice, *ssa.MakeMap:
+				default:
+					if !wi.unknown {
+						wi.unknown = true
+						e.changed = true
+					}
+				}
+			} else if !wi.bases[l.baseVal] {
+				wi.bases[l.baseVal] = true
+				e.changed = true
+			}
+		default:
+			if !wi.unknown {
+				wi.unknown = true
+				e.changed = true
+			}
+		}
+	}
+}
+
+// recordFreshWrite: a write to a freshly allocated object inside a loop does not touch pre-existing objects.
+func (e *Enc) recordFreshWrite(key string) {
+	for _, li := range e.loopList {
+		if !li.body[e.curBlock] {
+			continue
+		}
+		m := e.loopWrites[li.ordinal]
+		if m == nil {
+			m = map[string]*writeInfo{}
+			e.loopWrites[li.ordinal] = m
+		}
+		if m[key] == nil {
+			m[key] = &writeInfo{bases: map[ssa.Value]bool{}}
+			e.changed = true
+		}
+	}
+}
